@@ -22,6 +22,7 @@ type Opts struct {
 	AliasHeavy  bool // C05 profile: moves, constant shifts, array updates
 	NoDiv       bool
 	ArrayParams bool
+	ScalarParams bool // main parameters are integer scalars only (no bool)
 }
 
 var widthTable = []int{1, 2, 3, 7, 8, 9, 15, 16, 17, 31, 32, 33, 63, 64, 65, 127, 128, 129, 130}
@@ -415,6 +416,25 @@ func (g *gctx) boolExpr(depth int, needDyn bool) (*Expr, bool) {
 
 // expr builds an expression of type T (scalar).
 func (g *gctx) expr(T Type, needDyn bool) (*Expr, bool) {
+	if g.o.AliasHeavy && T.IsInt() && g.chance(45, "alias") {
+		// Plain copies, constant shifts and casts: the instructions
+		// that only rename wires (mov/smov/lshift/rshift/slice).
+		src := g.dynSource(T)
+		switch g.intn(0, 3, "aliaskind") {
+		case 0:
+			return src, true
+		case 1:
+			op := "<<"
+			if g.chance(50, "aliasshr") {
+				op = ">>"
+			}
+			return &Expr{Op: EBin, T: T, Name: op, A: []*Expr{src,
+				{Op: ELit, T: Uint(32), Val: fmt.Sprint(g.intn(0, T.N, "aliasshift"))}}}, true
+		default:
+			S := g.pickType("aliascast")
+			return g.castTo(g.dynSource(S), T), true
+		}
+	}
 	d := g.intn(0, g.o.MaxDepth, "depth")
 	if T.K == KBool {
 		return g.boolExpr(d, needDyn)
@@ -841,7 +861,7 @@ func Draw(t *rapid.T, o Opts) *Prog {
 		T := g.pickType("paramtype")
 		if i > 0 && o.ArrayParams && g.chance(20, "arrayparam") {
 			T = Array(g.intn(1, 4, "paramarrlen"), g.pickType("paramelem"))
-		} else if i > 0 && g.chance(10, "boolparam") {
+		} else if i > 0 && !o.ScalarParams && g.chance(10, "boolparam") {
 			T = Bool()
 		}
 		main.Params = append(main.Params, Param{Name: fmt.Sprintf("a%d", i), T: T})
